@@ -97,6 +97,33 @@ func c20Sends(c *Ctx) {
 				}
 				kinds[kind]++
 				c.Ok("knock-send-satisfiable", key, p.InstrPos(snd), "")
+				// a probe counts whether or not the listener managed to answer it: the queueing does not depend on the
+				// outcome (error result) of one of the Canary's own actions, such as transmitting the SYN|ACK
+				dep := ""
+				for _, dc := range DomConds(snd) {
+					atom, _ := condAtom(dc.V)
+					bo, isB := atom.(*ssa.BinOp)
+					if !isB || (bo.Op != token.EQL && bo.Op != token.NEQ) || !IsNilConst(bo.Y) || !IsErrorType(bo.X.Type()) {
+						continue
+					}
+					for _, lf := range leaves(bo.X) {
+						var call *ssa.Call
+						switch x := lf.(type) {
+						case *ssa.Call:
+							call = x
+						case *ssa.Extract:
+							call, _ = x.Tuple.(*ssa.Call)
+						}
+						if call == nil {
+							continue
+						}
+						if f := call.Call.StaticCallee(); f != nil && f.Signature.Recv() != nil && NamedOf(f.Signature.Recv().Type()) == canaryT {
+							dep = "the error of " + FuncShort(f) + " (" + p.InstrPos(call) + ")"
+						}
+					}
+				}
+				c.Check(dep == "", "knock-independent-of-reply", key, p.InstrPos(snd), "queued for every probe of this kind, whatever became of the reply",
+					"this probe record is only queued when "+dep+" is nil: a probe that the listener cannot answer (no ARP entry or route back to a spoofed or off-link source, transmit ring busy) is not counted, so a scan from such a source is reported with ports missing or not at all")
 				// the record's fields come from the packet's roles
 				c20KnockRoles(c, snd, key)
 			}
